@@ -1,0 +1,234 @@
+//! Verification hooks. Compiled only with `--cfg pearl_verif`.
+//!
+//! Everything in here is inert until a [`Controller`] is installed for the current thread with
+//! [`install`]: without one every hook falls through to pearl's normal behaviour.
+//!
+//! The hooks give an external harness ownership of the three things it cannot control from the
+//! public API: where tasks may be switched ([`point`], [`spawn`], the lock wrappers in
+//! [`locks`]), how blocking file operations are executed ([`io_inplace`], [`submit_job`],
+//! [`external_section`]) and what the file operations are ([`io`]: an ordered tap that can also
+//! make an operation fail or come up short).
+#![allow(missing_docs)]
+#![allow(missing_debug_implementations)]
+
+use std::cell::RefCell;
+use std::future::Future;
+use std::pin::Pin;
+use std::rc::Rc;
+use std::task::{Context, Poll, Waker};
+use std::time::SystemTime;
+
+pub mod index_probe;
+pub mod io;
+pub mod locks;
+
+pub use self::io::{IoEvent, IoOp, TapAction};
+pub use self::locks::{ASRwLock, RwLock};
+
+/// Identifier of a gated task, handed out by the controller.
+pub type TaskId = usize;
+
+/// Where a task is when it offers the scheduler a chance to switch.
+#[derive(Debug, Clone, Copy, PartialEq, Eq, Hash)]
+pub enum Label {
+    /// before `tokio::sync::RwLock::read`
+    LockRead,
+    /// before `tokio::sync::RwLock::write`
+    LockWrite,
+    /// before `async_lock::RwLock::read`
+    BlobRead,
+    /// before `async_lock::RwLock::write`
+    BlobWrite,
+    /// before `async_lock::RwLock::upgradable_read`
+    BlobUpgradable,
+    /// before a send into the observer channel
+    Send,
+    /// before a file write executed in place
+    IoWrite,
+    /// before a file read executed in place
+    IoRead,
+    /// before a file sync
+    IoSync,
+    /// harness-defined point
+    User(u32),
+}
+
+/// The harness side of the hooks.
+pub trait Controller {
+    /// A new gated task is about to be spawned.
+    fn register_task(&self, name: &'static str) -> TaskId;
+    /// Task `id` is polled by the runtime. `true`: it holds the token and may poll its future.
+    /// `false`: it must return `Pending` (the controller keeps the waker).
+    fn gate_enter(&self, id: TaskId, waker: &Waker) -> bool;
+    /// The poll of task `id` started by a granted `gate_enter` is over.
+    fn gate_exit(&self, id: TaskId, finished: bool);
+    /// The running task reached a scheduling point. `true`: yield here.
+    fn at_point(&self, label: Label, waker: &Waker) -> bool;
+    /// `Some(true)`: run the file operation of `len` bytes inline; `Some(false)`: hand it to
+    /// `submit_job`; `None`: pearl's own rule.
+    fn io_inplace(&self, len: u64) -> Option<bool>;
+    /// A blocking file operation that the controller schedules as an entity of its own.
+    fn submit_job(&self, job: Box<dyn FnOnce() + Send>);
+    /// The running task enters (`true`) / leaves (`false`) a section whose suspensions wait for
+    /// the real blocking pool (`tokio::fs`); the controller must not treat them as choices.
+    fn external(&self, begin: bool);
+    /// A file operation is about to be executed.
+    fn tap(&self, ev: &IoEvent) -> TapAction;
+    /// A file operation has been executed (only sent for `Open`: the tap can look at the result).
+    fn tap_done(&self, ev: &IoEvent);
+    /// Capacity of the observer channel.
+    fn channel_capacity(&self) -> Option<usize>;
+    /// Creation time given to blobs.
+    fn blob_created_at(&self) -> Option<SystemTime>;
+}
+
+thread_local! {
+    static CTL: RefCell<Option<Rc<dyn Controller>>> = RefCell::new(None);
+}
+
+/// Installs `c` for the current thread.
+pub fn install(c: Rc<dyn Controller>) {
+    CTL.with(|s| *s.borrow_mut() = Some(c));
+}
+
+/// Removes the controller of the current thread.
+pub fn uninstall() {
+    CTL.with(|s| *s.borrow_mut() = None);
+}
+
+/// Is a controller installed for this thread?
+pub fn active() -> bool {
+    CTL.with(|s| s.borrow().is_some())
+}
+
+pub(crate) fn with<R>(f: impl FnOnce(&dyn Controller) -> R) -> Option<R> {
+    let c = CTL.with(|s| s.borrow().clone());
+    c.map(|c| f(&*c))
+}
+
+/// A scheduling point: yields once if the controller asks for it.
+pub fn point(label: Label) -> Point {
+    Point { label, asked: false }
+}
+
+pub struct Point {
+    label: Label,
+    asked: bool,
+}
+
+impl Future for Point {
+    type Output = ();
+    fn poll(mut self: Pin<&mut Self>, cx: &mut Context<'_>) -> Poll<()> {
+        if !self.asked {
+            self.asked = true;
+            let label = self.label;
+            if with(|c| c.at_point(label, cx.waker())).unwrap_or(false) {
+                return Poll::Pending;
+            }
+        }
+        Poll::Ready(())
+    }
+}
+
+/// Wrapper that lets a task run only while it holds the controller's token.
+pub struct Gate<F: Future> {
+    id: TaskId,
+    fut: Pin<Box<F>>,
+}
+
+impl<F: Future> Gate<F> {
+    pub fn new(id: TaskId, fut: F) -> Self {
+        Self {
+            id,
+            fut: Box::pin(fut),
+        }
+    }
+}
+
+struct ExitGuard {
+    id: TaskId,
+    finished: bool,
+}
+
+impl Drop for ExitGuard {
+    fn drop(&mut self) {
+        let (id, finished) = (self.id, self.finished || std::thread::panicking());
+        with(|c| c.gate_exit(id, finished));
+    }
+}
+
+impl<F: Future> Future for Gate<F> {
+    type Output = F::Output;
+    fn poll(mut self: Pin<&mut Self>, cx: &mut Context<'_>) -> Poll<F::Output> {
+        let id = self.id;
+        match with(|c| c.gate_enter(id, cx.waker())) {
+            None => self.fut.as_mut().poll(cx),
+            Some(false) => Poll::Pending,
+            Some(true) => {
+                let mut guard = ExitGuard {
+                    id,
+                    finished: false,
+                };
+                let res = self.fut.as_mut().poll(cx);
+                guard.finished = res.is_ready();
+                res
+            }
+        }
+    }
+}
+
+/// `tokio::spawn`, gated when a controller is installed.
+pub fn spawn<F>(name: &'static str, fut: F) -> tokio::task::JoinHandle<F::Output>
+where
+    F: Future + Send + 'static,
+    F::Output: Send + 'static,
+{
+    match with(|c| c.register_task(name)) {
+        Some(id) => tokio::spawn(Gate::new(id, fut)),
+        None => tokio::spawn(fut),
+    }
+}
+
+/// See [`Controller::io_inplace`].
+pub fn io_inplace(len: u64) -> Option<bool> {
+    with(|c| c.io_inplace(len)).flatten()
+}
+
+/// Runs `f` as a controller-scheduled job and waits for its result. The job runs even if the
+/// returned future is dropped, like a `spawn_blocking` closure.
+pub async fn job<F, R>(f: F) -> R
+where
+    F: FnOnce() -> R + Send + 'static,
+    R: Send + 'static,
+{
+    let (tx, rx) = tokio::sync::oneshot::channel();
+    let boxed: Box<dyn FnOnce() + Send> = Box::new(move || {
+        let _ = tx.send(f());
+    });
+    with(|c| c.submit_job(boxed)).expect("verif::job without controller");
+    rx.await.expect("verif job dropped without running")
+}
+
+/// Marks the suspensions of the current task as waits for the real blocking pool until dropped.
+pub fn external_section() -> ExternalSection {
+    with(|c| c.external(true));
+    ExternalSection(())
+}
+
+pub struct ExternalSection(());
+
+impl Drop for ExternalSection {
+    fn drop(&mut self) {
+        with(|c| c.external(false));
+    }
+}
+
+/// See [`Controller::channel_capacity`].
+pub fn channel_capacity(default: usize) -> usize {
+    with(|c| c.channel_capacity()).flatten().unwrap_or(default)
+}
+
+/// See [`Controller::blob_created_at`].
+pub fn blob_created_at(default: SystemTime) -> SystemTime {
+    with(|c| c.blob_created_at()).flatten().unwrap_or(default)
+}
